@@ -52,6 +52,7 @@ type CallMon struct {
 
 	mu       sync.Mutex
 	invs     []*Inv
+	started  int
 	inflight int32
 }
 
@@ -105,7 +106,8 @@ func (q *QSpec) run(method string, in *puppet.Req, replies map[uint32]*puppet.Re
 	ov := atomic.AddInt32(&m.inflight, 1)
 	defer atomic.AddInt32(&m.inflight, -1)
 	m.mu.Lock()
-	idx := len(m.invs)
+	idx := m.started
+	m.started++
 	inv := &Inv{Idx: idx, Method: method, SameReq: in == m.Orig, Reps: make(map[uint32]RepV, len(replies)), Overlap: ov}
 	for k, r := range replies {
 		inv.Keys = append(inv.Keys, k)
@@ -116,7 +118,6 @@ func (q *QSpec) run(method string, in *puppet.Req, replies map[uint32]*puppet.Re
 		inv.Reps[k] = RepOf(r)
 	}
 	sort.Slice(inv.Keys, func(i, j int) bool { return inv.Keys[i] < inv.Keys[j] })
-	m.invs = append(m.invs, inv)
 	m.mu.Unlock()
 	if m.Hook != nil {
 		m.Hook(idx)
@@ -131,6 +132,10 @@ func (q *QSpec) run(method string, in *puppet.Req, replies map[uint32]*puppet.Re
 	}
 	inv.RetRep = &puppet.Rep{Call: m.Token, Node: 0, Serial: uint64(idx), Digest: dg, Idx: uint32(len(inv.Keys))}
 	inv.RetAgg = &puppet.Agg{Call: m.Token, Count: uint32(len(inv.Keys)), Digest: dg, Level: int32(inv.Level)}
+	// the invocation becomes visible to the harness only when it is complete (verdict and return values set)
+	m.mu.Lock()
+	m.invs = append(m.invs, inv)
+	m.mu.Unlock()
 	if m.Notify != nil {
 		select {
 		case m.Notify <- idx:
